@@ -27,8 +27,12 @@ theorem wfCommit_deferred {C : CommitMethod} (h : wfCommit C = true) : C.deferre
 
 theorem visible_eq (db : Db) : visible db = db.durable := rfl
 
-theorem spec_snoc (W : List Call) (c : Call) : spec (W ++ [c]) = specStep (spec W) c := by
-  simp [spec, List.foldl_append]
+theorem specFrom_snoc (st : List Row × List Nat) (W : List Call) (c : Call) :
+    specFrom st (W ++ [c]) = specStep (specFrom st W) c := by
+  simp [specFrom, List.foldl_append]
+
+theorem spec_snoc (W : List Call) (c : Call) : spec (W ++ [c]) = specStep (spec W) c :=
+  specFrom_snoc _ W c
 
 theorem specStep_shape (st : List Row × List Nat) (c : Call) (t : Nat) (pol : Policy) (rest : List Prim)
     (h : c.ops = .exec t pol :: rest) :
@@ -101,7 +105,7 @@ theorem runCalls_wf (C : CommitMethod) (hC : wfCommit C = true) (W : List Call) 
 theorem runCalls_init (C : CommitMethod) (hC : wfCommit C = true) (W : List Call) (hW : TopLevel W) :
     runCalls C W Db.init = { durable := (spec W).1, work := (spec W).1, defer := 0, acks := (spec W).2 } := by
   have := runCalls_wf C hC W hW Db.init ⟨rfl, rfl⟩
-  simpa [spec, Db.init] using this
+  simpa [spec, specFrom, Db.init] using this
 
 theorem topLevel_take {W : List Call} (hW : TopLevel W) (k : Nat) : TopLevel (W.take k) :=
   fun c hc => hW c (List.mem_of_mem_take hc)
@@ -154,7 +158,7 @@ theorem foldl_specStep_mono (W : List Call) (hW : TopLevel W) :
 
 /-- the reference content of a prefix is a list-prefix of the reference content of the whole workload -/
 theorem spec_prefix (A B : List Call) (hB : TopLevel B) : ∃ extra, (spec (A ++ B)).1 = (spec A).1 ++ extra := by
-  simp only [spec, List.foldl_append]
+  simp only [spec, specFrom, List.foldl_append]
   exact foldl_specStep_mono B hB _
 
 /-! ### where rows come from, and which rows must be there -/
@@ -221,7 +225,7 @@ theorem foldl_specStep_origin (W : List Call) (hW : TopLevel W) :
 /-- every stored record is the record of some call of the workload, complete -/
 theorem spec_origin (W : List Call) (hW : TopLevel W) (r : Row) (h : r ∈ (spec W).1) :
     ∃ c ∈ W, rowOf c = some r := by
-  rcases foldl_specStep_origin W hW ([], []) r h with h1 | h1
+  rcases foldl_specStep_origin W hW ([], []) r (by simpa [spec, specFrom] using h) with h1 | h1
   · simp at h1
   · exact h1
 
@@ -273,7 +277,7 @@ theorem spec_closed_reaches (dep : Nat → Nat → Option (Nat × Nat)) (W : Lis
     (hC : Causal dep W) (n : Nat) :
     Closed dep (spec (W.take n)).1 ∧ ∀ r ∈ (spec (W.take n)).1, Reaches dep (spec (W.take n)).1 r.table r.key := by
   induction n with
-  | zero => simp [spec, Closed]
+  | zero => simp [spec, specFrom, Closed]
   | succ n ih =>
     cases hn : W[n]? with
     | none =>
@@ -311,82 +315,129 @@ theorem spec_closed_reaches (dep : Nat → Nat → Option (Nat × Nat)) (W : Lis
 
 /-! ### `open()` -/
 
-theorem schemaStep_tables_mono (s : OpenSt) (st : SchemaStmt) (t : Nat) (h : t ∈ s.tables) :
-    t ∈ (schemaStep s st).tables := by
-  cases st <;> simp [schemaStep, h]
-  split <;> simp [h]
+def OpenSt.flags (s : OpenSt) : Bool × Bool := (s.option, s.version)
 
-theorem foldl_schema_tables_mono (script : List SchemaStmt) :
-    ∀ (s : OpenSt) (t : Nat), t ∈ s.tables → t ∈ (script.foldl schemaStep s).tables := by
+theorem schemaStep_flags (s : OpenSt) (st : SchemaStmt) :
+    (schemaStep s st).map OpenSt.flags = flagStep s.flags st := by
+  obtain ⟨tb, o, v⟩ := s
+  cases st with
+  | createTable t =>
+    simp only [schemaStep, flagStep, OpenSt.flags, Option.map_some]
+    split <;> rfl
+  | createOption => rfl
+  | deleteVersion => cases o <;> rfl
+  | insertVersion => cases o <;> cases v <;> rfl
+  | upsertVersion => cases o <;> rfl
+  | other => rfl
+
+theorem runList_flags (script : List SchemaStmt) :
+    ∀ s : OpenSt, ((runList script s).1.flags, (runList script s).2) = runFlags script s.flags := by
+  induction script with
+  | nil => intro s; rfl
+  | cons st rest ih =>
+    intro s
+    have h := schemaStep_flags s st
+    simp only [runList, runFlags]
+    cases hs : schemaStep s st with
+    | none => rw [hs] at h; simp at h; rw [← h]
+    | some s' => rw [hs] at h; simp at h; rw [← h]; exact ih s'
+
+theorem schemaStep_tables_mono (s s' : OpenSt) (st : SchemaStmt) (h : schemaStep s st = some s') (t : Nat)
+    (ht : t ∈ s.tables) : t ∈ s'.tables := by
+  cases st <;> simp [schemaStep] at h
+  · subst h; split <;> simp [ht]
+  · subst h; exact ht
+  · obtain ⟨_, h⟩ := h; subst h; exact ht
+  · obtain ⟨_, h⟩ := h; subst h; exact ht
+  · obtain ⟨_, h⟩ := h; subst h; exact ht
+  · subst h; exact ht
+
+theorem runList_tables_mono (script : List SchemaStmt) :
+    ∀ (s : OpenSt) (t : Nat), t ∈ s.tables → t ∈ (runList script s).1.tables := by
   induction script with
   | nil => intro s t h; exact h
-  | cons st rest ih => intro s t h; exact ih _ t (schemaStep_tables_mono s st t h)
+  | cons st rest ih =>
+    intro s t h
+    simp only [runList]
+    cases hs : schemaStep s st with
+    | none => exact h
+    | some s' => exact ih s' t (schemaStep_tables_mono s s' st hs t h)
 
-theorem foldl_schema_creates (script : List SchemaStmt) (t : Nat) (h : SchemaStmt.createTable t ∈ script) :
-    ∀ s : OpenSt, t ∈ (script.foldl schemaStep s).tables := by
+/-- a script that ran to its end without raising has created every table it names -/
+theorem runList_creates (script : List SchemaStmt) (t : Nat) (h : SchemaStmt.createTable t ∈ script) :
+    ∀ s : OpenSt, (runList script s).2 = false → t ∈ (runList script s).1.tables := by
   induction script with
   | nil => cases h
   | cons st rest ih =>
-    intro s
-    rcases List.mem_cons.mp h with h1 | h1
-    · subst h1
-      rw [List.foldl_cons]
-      apply foldl_schema_tables_mono
-      show t ∈ (schemaStep s (.createTable t)).tables
-      unfold schemaStep
-      by_cases hc : s.tables.contains t = true
-      · simp only [hc, ↓reduceIte]; simpa using hc
-      · simp only [hc]; simp
-    · exact ih h1 _
+    intro s hok
+    simp only [runList] at hok ⊢
+    cases hs : schemaStep s st with
+    | none => rw [hs] at hok; simp at hok
+    | some s' =>
+      rw [hs] at hok
+      rcases List.mem_cons.mp h with h1 | h1
+      · subst h1
+        apply runList_tables_mono
+        simp only [schemaStep, Option.some.injEq] at hs
+        subst hs
+        by_cases hc : s.tables.contains t = true
+        · simp only [hc, ↓reduceIte]; simpa using hc
+        · simp only [hc]; simp
+      · exact ih h1 s' hok
 
-theorem schemaStep_option_mono (s : OpenSt) (st : SchemaStmt) (h : s.option = true) :
-    (schemaStep s st).option = true := by
-  cases st <;> simp [schemaStep, h]
-  split <;> simp [h]
+theorem take_mem_prefixes {α : Type} (l : List α) : ∀ n : Nat, l.take n ∈ prefixes l := by
+  induction l with
+  | nil => intro n; simp [prefixes]
+  | cons a l ih =>
+    intro n
+    cases n with
+    | zero => simp [prefixes]
+    | succ n => simp only [List.take_succ_cons, prefixes, List.mem_cons, List.mem_map]; right; exact ⟨_, ih n, rfl⟩
 
-theorem foldl_schema_option (script : List SchemaStmt) (h : SchemaStmt.createOption ∈ script) :
-    ∀ s : OpenSt, (script.foldl schemaStep s).option = true := by
-  induction script with
-  | nil => cases h
-  | cons st rest ih =>
-    intro s
-    rcases List.mem_cons.mp h with h1 | h1
-    · subst h1
-      have : ∀ (r : List SchemaStmt) (s : OpenSt), s.option = true → (r.foldl schemaStep s).option = true := by
-        intro r
-        induction r with
-        | nil => intro s h; exact h
-        | cons a r ih2 => intro s h; exact ih2 _ (schemaStep_option_mono s a h)
-      exact this rest _ (by simp [schemaStep])
-    · exact ih h1 _
-
-theorem foldl_schema_version (pre : List SchemaStmt) (s : OpenSt) :
-    ((pre ++ [SchemaStmt.insertVersion]).foldl schemaStep s).version = true := by
-  simp [List.foldl_append, schemaStep]
-
-/-- a store can be opened whatever a kill left behind, also when the kill hit an earlier `open()`; a completed
-    open leaves the whole schema and the version row -/
+/-- a store can be opened whatever a kill left behind, also when the kill (or a raise) hit an earlier `open()`
+    behind any statement of the schema script; a completed open leaves the whole schema and the version row -/
 def OpenSafe (handlers : List ExcKind) (script : List SchemaStmt) (tables : List Nat) : Prop :=
-  ∀ (s : OpenSt) (n : Nat), ∃ s1, openDb handlers script n s = some s1 ∧
-    ∃ s2, openDb handlers script script.length s1 = some s2 ∧
-      (∀ t ∈ tables, t ∈ s2.tables) ∧ s2.option = true ∧ s2.version = true
+  ∀ (s : OpenSt) (n : Nat),
+    let s1 := openKilled handlers script n s
+    openOk handlers script s1 = true ∧
+      (∀ t ∈ tables, t ∈ (openEnd script s1).tables) ∧ (openEnd script s1).option = true ∧
+      (openEnd script s1).version = true
+
+theorem flags_cases (f : Bool × Bool) :
+    f ∈ [(false, false), (false, true), (true, false), (true, true)] := by
+  obtain ⟨a, b⟩ := f
+  cases a <;> cases b <;> simp
 
 theorem openSafe_of (handlers : List ExcKind) (script : List SchemaStmt) (tables : List Nat)
-    (h1 : handlers.contains .stopIteration = true)
-    (h2 : ∀ t ∈ tables, SchemaStmt.createTable t ∈ script)
-    (h3 : SchemaStmt.createOption ∈ script)
-    (h4 : ∃ pre, script = pre ++ [SchemaStmt.insertVersion]) : OpenSafe handlers script tables := by
+    (h1 : flagsSafe handlers script = true)
+    (h2 : ∀ t ∈ tables, SchemaStmt.createTable t ∈ script) : OpenSafe handlers script tables := by
   intro s n
-  have h1' : ExcKind.stopIteration ∈ handlers := by simpa using h1
-  have hok : ∀ s : OpenSt, versionReadOk handlers s = true := by
-    intro s; simp [versionReadOk, h1']
-  refine ⟨(script.take n).foldl schemaStep s, by simp [openDb, hok],
-    (script.take script.length).foldl schemaStep ((script.take n).foldl schemaStep s), by simp [openDb, hok], ?_, ?_, ?_⟩
-  all_goals rw [List.take_length]
-  · intro t ht; exact foldl_schema_creates script t (h2 t ht) _
-  · exact foldl_schema_option script h3 _
-  · obtain ⟨pre, hp⟩ := h4
-    rw [hp]; exact foldl_schema_version pre _
+  simp only [flagsSafe, List.all_eq_true] at h1
+  have hf := h1 s.flags (flags_cases _) (script.take n) (take_mem_prefixes script n)
+  have hro : ∀ x : OpenSt, versionReadOk handlers x = flagReadOk handlers x.flags := fun x => rfl
+  -- the flags of the state the killed open left behind
+  have hs1 : (openKilled handlers script n s).flags =
+      (if flagReadOk handlers s.flags then (runFlags (script.take n) s.flags).1 else s.flags) := by
+    unfold openKilled
+    rw [hro]
+    split
+    · have := runList_flags (script.take n) s
+      exact (congrArg Prod.fst this)
+    · rfl
+  try dsimp only at hf
+  rw [← hs1] at hf
+  generalize openKilled handlers script n s = s1 at hf ⊢
+  have hrun := runList_flags script s1
+  simp only [Bool.and_eq_true, Bool.not_eq_true', beq_iff_eq] at hf
+  obtain ⟨⟨hr, hok⟩, hend⟩ := hf
+  have hok' : (runList script s1).2 = false := by
+    have := congrArg Prod.snd hrun; dsimp only at this; rw [this]; exact hok
+  have hend' : (runList script s1).1.flags = (true, true) := by
+    have := congrArg Prod.fst hrun; dsimp only at this; rw [this]; exact hend
+  refine ⟨by simp [openOk, hro, hr, hok'], ?_, ?_, ?_⟩
+  · intro t ht; exact runList_creates script t (h2 t ht) s1 hok'
+  · exact congrArg Prod.fst hend'
+  · exact congrArg Prod.snd hend'
 
 /-! ### one row per primary key -/
 
@@ -419,6 +470,32 @@ theorem foldl_specStep_unique (W : List Call) (hW : TopLevel W) :
 
 theorem spec_unique (W : List Call) (hW : TopLevel W) : KeysUnique (spec W).1 :=
   foldl_specStep_unique W hW ([], []) (by simp [KeysUnique])
+
+/-- the table component of the reference run does not depend on the ack list it started with -/
+theorem specFrom_fst_indep (W : List Call) :
+    ∀ (rows : List Row) (a b : List Nat), (specFrom (rows, a) W).1 = (specFrom (rows, b) W).1 := by
+  induction W with
+  | nil => intro rows a b; rfl
+  | cons c cs ih =>
+    intro rows a b
+    simp only [specFrom, List.foldl_cons]
+    have h : ∀ x : List Nat, ∃ y, specStep (rows, x) c = ((specStep (rows, a) c).1, y) := by
+      intro x
+      simp only [specStep]
+      cases callExec c with
+      | none => exact ⟨x, rfl⟩
+      | some tp =>
+        obtain ⟨t, pol⟩ := tp
+        simp only []
+        cases insertRow pol ⟨t, c.key, c.val⟩ rows with
+        | none => exact ⟨x, rfl⟩
+        | some w => exact ⟨x ++ [c.id], rfl⟩
+    obtain ⟨ya, hya⟩ := h a
+    obtain ⟨yb, hyb⟩ := h b
+    rw [hya, hyb]
+    exact ih _ ya yb
+
+theorem recover_clean (db : Db) : Clean (recover db) := ⟨rfl, rfl⟩
 
 /-! ### inside a `with db:` block (`_pending_commits ≥ 1`): commits are only counted -/
 
